@@ -1,6 +1,7 @@
 import QipVerif.Lemmas.SpinChainExp
 import QipVerif.Lemmas.ComposeTop
 import QipVerif.Lemmas.ComposeSched
+import QipVerif.Lemmas.ComposeCast
 /-!
 # C06 — noise-free spin-chain pulse compilation reproduces the circuit exactly
 
@@ -636,5 +637,96 @@ example (enc : String × Int → ℕ) (henc : Function.Injective enc) :
     rcases hgm with rfl | rfl
     · exact ⟨Or.inl (by decide +kernel), trivial⟩
     · exact ⟨Or.inl (by decide +kernel), Or.inl (by decide +kernel), trivial⟩
+
+/-- **end_to_end_pulses_model_partial.**  `end_to_end_pulses_scheduled_partial` without the hypothesis "`is` is the cast of
+a rational list": the theorem speaks about the `Rat` instance of the compiler model itself (`compile (1 : Rat) (evQr r)`,
+angles in units of π, `pi := 1` — the instance `drv_spinchain` runs), and `compile_cast` proves that its instruction list,
+cast to `ℝ`, IS the instruction list of the real-valued model.
+
+Class covered: **every angle of the circuit is a rational multiple of π** — fixed parts are multiples of π/8 and every
+symbol `j` is valued at `r j · π` with `r j ∈ ℚ` (`ρ j = π · r j`; any rational multiple of π can be written so) — and
+**rational hardware strengths** `Pq` (`ParamsOK` for their cast: lengths as `_compute_params`, all non-zero).  Irrational
+strengths, and angles that are not rational multiples of π, give irrational durations and are outside (for them
+`end_to_end_pulses_scheduled_partial` applies whenever a rational list exists, i.e. never); floats of the implementation are
+rationals, their rounding is not modelled.
+
+`hidle` — the transpiled circuit contains no IDLE gate: the argument of IDLE is a plain time, not an angle, and the two
+instances read it differently (`π · x` against `x`); a circuit with an IDLE gate of non-zero time has no rational instruction
+list in this representation.
+
+What the theorem quantifies over: topology, `pre`, `N`, valuation `r`, strengths `Pq`, circuit `gs` (`out` is its transpiled
+form), schedule mode, the label numbering `enc` and the `argsort` answer `perm`.  Remaining named hypotheses: `hpulse`,
+`GapsResolved`, `SepAll tol` (see `end_to_end_pulses_scheduled_partial` for why each cannot be dropped), `hroute`, `hph`, `h2q`. -/
+theorem end_to_end_pulses_model_partial (circular pre : Bool) (N : ℕ) (r : ℕ → Rat) (Pq : Params Rat)
+    (hP : ParamsOK circular N (castP Pq)) (hroute : RouteStageDen N (fun j => Real.pi * ((r j : ℚ) : ℝ)))
+    (gs out : List Gate) (hg : ∀ g ∈ gs, InClass N g)
+    (hph : ∀ g ∈ gs, phOK g = true) (h2q : pre = false → ∀ g ∈ gs, g.qubits.length ≤ 2)
+    (ht : transpileV tables pre (deviceSpec (chainDev circular)) N gs = .ok out)
+    (hidle : ∀ g ∈ out, g.name ≠ .IDLE)
+    (U : Matrix (St N) (St N) ℂ) (hU : denG N (fun j => Real.pi * ((r j : ℚ) : ℝ)) gs = some U)
+    (phase0Q : Rat) (old : ℝ) :
+    ∃ (isQ : List (Instr Rat)) (φQ : Rat),
+      compile (1 : Rat) (evQr r) N Pq phase0Q out = .ok (isQ, φQ) ∧
+      (∀ i ∈ isQ, 0 < i.dur) ∧
+      reportedPhase old (Real.pi * ((φQ : ℚ) : ℝ)) = phaseSum (Ang.eval fun j => Real.pi * ((r j : ℚ) : ℝ)) out ∧
+      ∀ (enc : String × Int → ℕ), Function.Injective enc →
+      ∀ (mode : Option Bool) (st0 : List Rat), modelStarts mode isQ = some st0 →
+      ∀ (perm : List ℕ) (cis : List Concat.Instr) (st : List Rat),
+        Concat.schedule (isQ.map (toC enc)) (schOf mode st0 perm) = .ok (cis, st) →
+        (∃ i ∈ isQ, i.chan.isSome = true) → GapsResolved (cis.zip st) →
+        ∀ (tol : Rat), 0 ≤ tol →
+        ∃ (groups : List (ℕ × List (Rat × Concat.Wave))) (chans : List (List Rat × List Rat)),
+          Concat.groupPulses (cis.zip st) [] = some groups ∧
+          Concat.compileS Gen.concatSrc (isQ.map (toC enc)) (schOf mode st0 perm) =
+            some (.ok (some ((groups.map (·.1)).zip (chans.map some)))) ∧
+          (Grid.SepAll tol (chans.map (·.1)) → ∃ (T : List Rat) (rows : List (List Rat)),
+            (∀ zl w : Bool, Grid.fullCoeffsVW zl w tol (chans.map fun c => Grid.Chan.arr c.1 c.2) = .ok (T, rows)) ∧
+            GateC.phase (reportedPhase old (Real.pi * ((φQ : ℚ) : ℝ))) • Grid.ordProdL (Grid.runAnalytically 0
+              ((groups.map (·.1)).map (labelHam circular N enc)) (Grid.slices T rows)) = U) := by
+  set ρ : ℕ → ℝ := fun j => Real.pi * ((r j : ℚ) : ℝ) with hρ
+  obtain ⟨is, φ, h1, h4, H⟩ := end_to_end_pulses_scheduled_partial circular pre N ρ (castP Pq) hP hroute gs out hg hph
+    h2q ht U hU 0 old
+  obtain ⟨is', φ', _, h1', _, _, _, _, _, _, h8, _⟩ :=
+    end_to_end_partial circular pre N ρ (castP Pq) hP hroute gs out hg hph h2q ht U hU 0 old
+  rw [h1] at h1'
+  simp only [Except.ok.injEq, Prod.mk.injEq] at h1'
+  obtain ⟨rfl, rfl⟩ := h1'
+  have hnat := transpile_native_ok circular pre N gs out hg h2q ht
+  have hev : Ang.eval ρ = fun a => Real.pi * ((evQr r a : ℚ) : ℝ) := funext (eval_evQr r)
+  have hcast := compile_cast circular N (evQr r) Pq out (fun g hg' => ⟨hnat g hg', hidle g hg'⟩) 0 phase0Q
+  rw [← hev, h1] at hcast
+  cases hq : compile (1 : Rat) (evQr r) N Pq phase0Q out with
+  | error e => rw [hq] at hcast; cases hcast
+  | ok res =>
+    obtain ⟨isQ, φQ⟩ := res
+    rw [hq] at hcast
+    simp only [castOut, Except.ok.injEq, Prod.mk.injEq] at hcast
+    obtain ⟨his, hφ⟩ := hcast
+    have hposR : ∀ i ∈ is, 0 < i.dur := h8 rfl (fun g hg' hn => absurd hn (hidle g hg'))
+    have hpos : ∀ i ∈ isQ, 0 < i.dur := by
+      intro i hi
+      have := hposR (castI i) (by rw [his]; exact List.mem_map.mpr ⟨i, hi, rfl⟩)
+      have h' : (0 : ℝ) < ((i.dur : ℚ) : ℝ) := this
+      exact_mod_cast h'
+    refine ⟨isQ, φQ, rfl, hpos, by rw [← hφ]; exact h4, ?_⟩
+    intro enc henc mode st0 hst perm cis st hs hpulse hgap tol htol
+    rw [← hφ]
+    exact H isQ his hpos enc henc mode st0 hst perm cis st hs hpulse hgap tol htol
+
+-- non-vacuity: the `Rat` instance on a native list with a symbolic angle valued at π/3 (RZ: duration (1/3)/4/(1/2) = 1/6),
+-- a GLOBALPHASE of π/4 (phase 1/4 in units of π, the compiler's old phase 7 is reset) and an ISWAP (area −1/8 at strength
+-- 1/10); rational strengths meeting `ParamsOK`
+example :
+    let r := compile (1 : Rat) (evQr fun _ => 1/3) 2 ⟨[1/4, 1/4], [1, 1/2], [1/10]⟩ 7
+        [⟨.RX, [0], [], .pi8 4⟩, ⟨.GLOBALPHASE, [], [], .pi8 2⟩, ⟨.RZ, [1], [], .symb 0⟩, ⟨.ISWAP, [0, 1], [], {}⟩]
+    r.toOption.map (fun p => p.1.map (·.chan)) = some [some ("sx", 0), some ("sz", 1), some ("g", 0)] ∧
+    r.toOption.map (fun p => p.1.map (·.coeff)) = some [1/4, 1/2, -1/10] ∧
+    r.toOption.map (fun p => p.1.map (·.dur)) = some [1/2, 1/6, 5/4] ∧ r.toOption.map (·.2) = some (1/4) ∧
+    ParamsOK false 2 (castP ⟨[1/4, 1/4], [1, 1/2], [1/10]⟩) := by
+  refine ⟨by decide +kernel, by decide +kernel, by decide +kernel, by decide +kernel, ⟨rfl, rfl, rfl, ?_, ?_, ?_⟩⟩
+  all_goals
+    intro x hx
+    simp only [castP, List.map_cons, List.map_nil, List.mem_cons, List.not_mem_nil, or_false] at hx
+    rcases hx with rfl | rfl <;> norm_num
 
 end QipVerif.C06
